@@ -83,7 +83,10 @@ def list_elems(path, term):
     if term[0] == 'obj':
         o = path.state.objs.get(term, {})
         if '$elems' in o:
-            return o['$elems']
+            # the marker "other loop iterations may have added elements" is
+            # not an element
+            return tuple(x for x in o['$elems']
+                         if not (x[0] == 'splat' and x[1][0] == 'phi'))
     if term[0] == 'c' and term[1] == ():
         return ()
     return None
